@@ -408,9 +408,16 @@ class Cache(Filter[Iterable[Any], Iterable[Any]]):
 
         yield from self._cache
         items = self._iter
-        while current := list(islice(self._iter,n_slice)):
-            self._cache.extend(current)
-            yield from current
+        try:
+            while current := list(islice(self._iter,n_slice)):
+                self._cache.extend(current)
+                yield from current
+        except Exception:
+            #the source failed while we were filling the cache. A partially filled cache with an
+            #exhausted iterator would silently serve truncated data on the next read so we start over.
+            self._iter  = None
+            self._cache = None
+            raise
         self._iter = None
 
 class Insert(Filter[Iterable[Any], Iterable[Any]]):
